@@ -68,6 +68,24 @@ def rand_unit(rng):
             return v / n
 
 
+def vscale(rng):
+    """lengths for axis / direction / polarization vectors: unit, far from unit, and within 1e-5 of unit (a vector that is
+    'almost normalised' must be treated like any other)"""
+    return rng.choice([1.0, 1.0, 7.0, 0.2, 3.0, 1 + 1e-6, 1 - 3e-6, 1 + 9e-6, 1 - 8e-6, 1 + 1.2e-5, 1 - 4e-7])
+
+
+def rand_dir(rng):
+    """a direction: exact-unit random, float32-rounded unit (length off by ~1e-8), or a short-decimal near-unit vector"""
+    r = rng.random()
+    if r < 0.6:
+        return rand_unit(rng)
+    if r < 0.85:
+        return np.asarray(rand_unit(rng), dtype=np.float32).astype(float)
+    v = [0.6, 0.8, 0.003]
+    rng.shuffle(v)
+    return np.array([c * rng.choice([1.0, -1.0]) for c in v])
+
+
 def rand_rotation(rng):
     if rng.random() < 0.5:
         q = np.array([rng.gauss(0, 1) for _ in range(4)])
@@ -168,7 +186,7 @@ class Maker:
     def params(self, cls):
         rng = self.rng
         z, x = rand_frame(rng)
-        scale_z, scale_x = rng.choice([1.0, 1.0, 2.5, 0.01]), rng.choice([1.0, 3.0])
+        scale_z, scale_x = vscale(rng), vscale(rng)
         pos = [rng.choice([0.0, 0.0, rng.uniform(-1e3, 1e3)]) for _ in range(3)]
         p = {"cls": cls, "position": pos, "z": [float(v) for v in z * scale_z], "x": [float(v) for v in x * scale_x],
              "np_seed": rng.randrange(2 ** 31)}
@@ -237,7 +255,46 @@ class _Axes:
         self.z_axis, self.x_axis, self.position = np.asarray(z_axis, float), np.asarray(x_axis, float), np.asarray(position, float)
 
 
-COMPONENT_KINDS = ["signal", "signal", "empty", "function"]
+COMPONENT_KINDS = ["signal", "signal", "empty", "function", "function"]
+
+
+def hist_fn(h):
+    """an earlier frequency filter of a component (attenuation x Fresnel-like: real, even in f)"""
+    def H(f):
+        return h["c"] * np.exp(-np.abs(np.asarray(f, float)) / h["fc"])
+    H.__name__ = "history_filter"
+    return H
+
+
+def oracle_filter_multi(times, values, filters):
+    """FunctionSignal semantics of several filters [(H, force_real), ...]: the responses are multiplied and applied in ONE
+    zero-padded transform pair (no truncation in between); direct O(N^2) sums"""
+    n = len(values)
+    m = 2 * n
+    dt = times[1] - times[0]
+    k = np.arange(m)
+    f = np.where(k <= (m - 1) // 2, k, k - m) / (m * dt)
+    resp = np.ones(m, dtype=complex)
+    for H, fr in filters:
+        if fr:
+            r = np.asarray(H(np.abs(f)), dtype=complex)
+            r = np.where(f < 0, np.conj(r), r)
+        else:
+            r = np.asarray(H(f), dtype=complex)
+        resp = resp * r
+    x = np.concatenate([values, np.zeros(n)])
+    W = np.exp(-2j * np.pi * np.outer(k, np.arange(m)) / m)
+    y = (np.conj(W) @ (resp * (W @ x))) / m
+    return np.real(y[:n]), float(np.max(np.abs(resp))) if m else 1.0
+
+
+def component_response(times, vals, fp, H, fr):
+    """what the antenna's filter makes of one component: for a FunctionSignal with earlier filters, those and the antenna's
+    response in one transform pair"""
+    hist = (fp or {}).get("history") or []
+    if not hist:
+        return oracle_filter(times, vals, H, fr)
+    return oracle_filter_multi(times, vals, [(hist_fn(h), h["force_real"]) for h in hist] + [(H, fr)])
 
 
 def pulse_fn(fp):
@@ -257,6 +314,10 @@ def rand_component(rng, times):
     elif ckind == "function":
         fp = {"amp": 10 ** rng.uniform(-2, 2), "tc": float(times[0] + rng.uniform(0.2, 0.8) * n * dt), "w": float(rng.uniform(1, 3) * dt),
               "f0": float(rng.uniform(0.05, 0.3) / dt)}
+        if rng.random() < 0.6:
+            # an earlier filter history (like the s / p outputs of propagate with different Fresnel factors)
+            fp["history"] = [{"c": rng.choice([0.9, 0.4, -0.3, 1.0]), "fc": float(rng.uniform(0.1, 2.0) / dt), "force_real": rng.random() < 0.5}
+                             for _h in range(rng.choice([1, 1, 2]))]
         vals = pulse_fn(fp)(times)
     else:
         _, vals = rand_signal_data(rng, n)
@@ -269,8 +330,19 @@ def make_component(ckind, times, vals, vt, fp):
     if ckind == "empty":
         return pyrex.EmptySignal(times, value_type=ty)
     if ckind == "function":
-        return pyrex.FunctionSignal(times, pulse_fn(fp), value_type=ty)
+        sig = pyrex.FunctionSignal(times, pulse_fn(fp), value_type=ty)
+        for h in fp.get("history") or []:
+            sig.filter_frequencies(hist_fn(h), force_real=h["force_real"])
+        return sig
     return pyrex.Signal(times, vals, value_type=ty)
+
+
+def oracle_axes(ant, p):
+    """axes for the gain oracle from the constructor arguments (normalised here, exactly), not read back from the object;
+    the dipole draws its own x-axis, which its gains do not involve"""
+    z = np.asarray(p["z"], float)
+    x = np.asarray(ant.x_axis, float) if p["cls"] == "DipoleAntenna" else np.asarray(p["x"], float)
+    return _Axes(z / np.linalg.norm(z), x / np.linalg.norm(x), ant.position)
 
 
 def expected_gains(ant, p, direction, pol):
@@ -416,7 +488,7 @@ def correspondence(ctx):
         dist["coords"] += 1
         if p["cls"] == "DipoleAntenna":
             th_, ph_ = rng.uniform(0, math.pi), rng.uniform(0, 2 * math.pi)
-            pol = rand_unit(rng) * rng.choice([1.0, 2.0])
+            pol = rand_dir(rng) * vscale(rng)
             cases.append("pr (M.dipoleAntenna_directional_gain %s %s %s)" % (oant(ant), rx.ocf(th_), rx.ocf(ph_)))
             checks.append(("gain", {"params": p, "theta": th_, "phi": ph_}, (float(ant.directional_gain(th_, ph_)),), None))
             cases.append("pr (M.dipoleAntenna_polarization_gain %s %s)" % (oant(ant), ov(pol)))
@@ -455,7 +527,7 @@ def correspondence(ctx):
         k = rng.random()
         if k < 0.3:
             x = x + rng.choice([1e-9, 1e-8, 0.99e-8, 1.01e-8, 1e-7, 0.3]) * z     # around the 1e-8 tolerance
-        z, x = z * rng.choice([1.0, 4.0]), x * rng.choice([1.0, 0.25])
+        z, x = z * vscale(rng), x * vscale(rng)
         sysw = rng.random() < 0.5
         obj = mk.wrap(ant) if sysw else ant
         try:
@@ -481,10 +553,10 @@ def correspondence(ctx):
         obj = mk.wrap(ant) if sysw else ant
         times, vals = rand_signal_data(rng)
         vt = rng.choice([1, 2, 1, 2, 0, 3, None])
-        direction = None if rng.random() < 0.2 else rand_unit(rng) * rng.choice([1.0, 7.0])
+        direction = None if rng.random() < 0.2 else rand_dir(rng) * vscale(rng)
         if direction is not None and rng.random() < 0.1:
             direction = np.asarray(ant.z_axis) * rng.choice([1.0, -1.0])         # along the dipole axis
-        pol = None if rng.random() < 0.2 else rand_unit(rng) * rng.choice([1.0, 0.2])
+        pol = None if rng.random() < 0.2 else rand_dir(rng) * vscale(rng)
         fr = rng.random() < 0.5
         sig = make_signal(times, vals, vt)
         vti = 0 if vt is None else vt
@@ -510,7 +582,7 @@ def correspondence(ctx):
         else:
             call = "M.%s_apply_response %s %s" % (name, filt, oant(ant, coeffs))
         cases.append("prsig (%s %s %s %s %s)" % (call, osig(times, vals, vti), oopt(direction), oopt(pol), "true" if fr else "false"))
-        d, pg, dd, pp = expected_gains(ant, p, direction, pol)
+        d, pg, dd, pp = expected_gains(oracle_axes(ant, p), p, direction, pol)
         af, eff = antenna_factor_expected(p)
         fac = eff / (af if vti == 2 else 1.0)
         fmax = float(np.max(np.abs(filtered))) if len(filtered) else 0.0
@@ -534,14 +606,14 @@ def correspondence(ctx):
         steps = []
         for _k in range(rng.randint(1, 3)):
             z, x = rand_frame(rng)
-            z, x = z * rng.choice([1.0, 3.0, 0.2]), x * rng.choice([1.0, 0.5])
+            z, x = z * vscale(rng), x * vscale(rng)
             via = sysw and rng.random() < 0.6
             (sysobj if via else ant).set_orientation(z_axis=z, x_axis=x)
             steps.append({"z": [float(v) for v in z], "x": [float(v) for v in x], "via_system": bool(via)})
         times, vals = rand_signal_data(rng, rng.choice([2, 4, 8, 16]))
         vt = rng.choice([1, 2])
-        direction = rand_unit(rng) * rng.choice([1.0, 4.0])
-        pol = rand_unit(rng) * rng.choice([1.0, 0.3])
+        direction = rand_dir(rng) * vscale(rng)
+        pol = rand_dir(rng) * vscale(rng)
         fr = rng.random() < 0.5
         obj = sysobj if (sysw and rng.random() < 0.5) else ant
         with np.errstate(all="ignore"):
@@ -627,14 +699,16 @@ def correspondence(ctx):
             # what the components' filtered values are (direct DFT), and the rounding allowance of this step
             table, tol = [], 1e-300
             for tt, vals, vt, pol, ck, fp in comps:
-                filtered, hmax = oracle_filter(tt, vals, H, fr) if cls != "Antenna" else (vals, 1.0)
+                has_hist = bool((fp or {}).get("history"))
+                filtered, hmax = component_response(tt, vals, fp, H, fr) if (cls != "Antenna" or has_hist) else (vals, 1.0)
                 table.append("(%s, %s)" % (olist(vals), olist(filtered)))
                 tol += filter_tol(vals, hmax, max(1.0, eff / af, eff)) if np.max(np.abs(vals)) > 0 else 0.0
             expect.append((float(len(ant.signals)), tag, last, same_prefix,
                            float(ant.signals[-1].value_type.value) if stored else None, tol))
             lens_ok = kind not in ("len_mismatch", "pol_not_list")
             inputs = "[" + "; ".join("(%s, %s)" % (osig(tt, vals, 0 if vt is None else vt), oopt(pol)) for tt, vals, vt, pol, _, _ in comps) + "]"
-            filt = "ident_filter" if cls == "Antenna" else "(table_filter [%s])" % "; ".join(table)
+            any_hist = any((c_[5] or {}).get("history") for c_ in comps)
+            filt = "ident_filter" if (cls == "Antenna" and not any_hist) else "(table_filter [%s])" % "; ".join(table)
             code.append("let (st, r) = M.receive_model (fun s p -> M.%s_apply_response %s %s s %s p %s) st %s %s in" % (
                 mname, filt, oant(ant, coeffs), oopt(direction), "true" if fr else "false", "true" if lens_ok else "false", inputs))
             code.append("Printf.printf \"%h %h \" (float_of_int (List.length st)) (tagf r);")
@@ -763,16 +837,16 @@ def probes(ctx):
         _, y = rand_signal_data(rng, len(x))
         a, b = rng.choice([1.0, -1.0, 2.0, rng.uniform(-3, 3)]), rng.choice([1.0, 0.0, rng.uniform(-3, 3)])
         vt = rng.choice([1, 2])
-        direction = None if rng.random() < 0.15 else rand_unit(rng) * rng.choice([1.0, 5.0])
+        direction = None if rng.random() < 0.15 else rand_dir(rng) * vscale(rng)
         if direction is not None and cls == "DipoleAntenna" and rng.random() < 0.08:
             direction = np.asarray(ant.z_axis) * rng.choice([1.0, -1.0])
-        pol = None if rng.random() < 0.15 else rand_unit(rng) * rng.choice([1.0, 3.0, 0.1])
+        pol = None if rng.random() < 0.15 else rand_dir(rng) * vscale(rng)
         fr = rng.random() < 0.5
         base = {"params": p, "times": [float(t) for t in times], "x": [float(v) for v in x], "y": [float(v) for v in y], "a": a, "b": b,
                 "value_type": vt, "direction": None if direction is None else [float(v) for v in direction],
                 "polarization": None if pol is None else [float(v) for v in pol], "force_real": fr, "through_system": sysw}
         H = response_H(p)
-        d, pg, dd, pp = expected_gains(ant, p, direction, pol)
+        d, pg, dd, pp = expected_gains(oracle_axes(ant, p), p, direction, pol)
         af, eff = antenna_factor_expected(p)
         fac = d * pg * eff / (af if vt == 2 else 1.0)
 
@@ -846,7 +920,7 @@ def probes(ctx):
         pol2 = None if pol is None else Rm @ pol
         with np.errstate(all="ignore"):
             r2 = obj2.apply_response(make_signal(times, x, vt), direction=d2, polarization=pol2, force_real=fr)
-        d_2, pg_2, dd2, pp2 = expected_gains(ant2, p2, d2, pol2)
+        d_2, pg_2, dd2, pp2 = expected_gains(oracle_axes(ant2, p2), p2, d2, pol2)
         rot_tol = ((dd + dd2 + 64 * EPS) * abs(pg) + abs(d) * (pp + pp2 + 64 * EPS) + 64 * EPS * abs(d * pg)) * abs(eff / (af if vt == 2 else 1.0)) * \
             max(float(np.max(np.abs(fx))), float(np.max(np.abs(x)))) + 1e-9 * float(np.max(np.abs(rx_.values))) + 1e-300
         err = float(np.max(np.abs(r2.values - rx_.values)))
@@ -946,7 +1020,7 @@ def probe_histories(ctx):
             do_orient = step > 0 and (rng.random() < 0.7 or step == 1)
             if do_orient:
                 z, x = rand_frame(rng)
-                z, x = z * rng.choice([1.0, 2.0, 0.1]), x * rng.choice([1.0, 5.0])
+                z, x = z * vscale(rng), x * vscale(rng)
                 via = sysobj is not None and rng.random() < 0.6
                 (sysobj if via else ant).set_orientation(z_axis=z, x_axis=x)
                 cur_z, cur_x = z / np.linalg.norm(z), x / np.linalg.norm(x)
@@ -955,8 +1029,8 @@ def probe_histories(ctx):
             # respond
             times, xv = rand_signal_data(rng, rng.choice([2, 4, 8, 16, 32]))
             vt = rng.choice([1, 2])
-            direction = rand_unit(rng) * rng.choice([1.0, 6.0])
-            pol = rand_unit(rng) * rng.choice([1.0, 2.0, 0.2])
+            direction = rand_dir(rng) * vscale(rng)
+            pol = rand_dir(rng) * vscale(rng)
             fr = rng.random() < 0.5
             obj = sysobj if (sysobj is not None and rng.random() < 0.6) else ant
             use_receive = rng.random() < 0.4
@@ -1045,18 +1119,23 @@ def probe_receive(ctx):
         obj = mk.wrap(ant) if rng.random() < 0.4 else ant
         n = rng.choice([2, 4, 8, 16])
         times, _ = rand_signal_data(rng, n)
-        direction = None if rng.random() < 0.2 else rand_unit(rng) * rng.choice([1.0, 3.0])
+        direction = None if rng.random() < 0.2 else rand_dir(rng) * vscale(rng)
         fr = rng.random() < 0.5
         H = response_H(p)
         af, eff = antenna_factor_expected(p)
         ncomp = rng.choice([1, 2, 2, 3])
         comps = []
+        all_functions = rng.random() < 0.35            # polarized components as propagate() delivers them for lazy pulses
         for ci in range(ncomp):
             ckind, vt, vals, fp = rand_component(rng, times)
+            while all_functions and ckind != "function":
+                ckind, vt, vals, fp = rand_component(rng, times)
+            if all_functions:
+                vt = comps[0]["value_type"] if comps else rng.choice([1, 2])
             if rng.random() < 0.6 and vt not in (1, 2):
                 vt = rng.choice([1, 2])                      # keep a good share of fully valid lists
             comps.append({"component_kind": ckind, "value_type": vt, "values": [float(v) for v in vals], "function": fp,
-                          "polarization": [float(v) for v in rand_unit(rng) * rng.choice([1.0, 2.0])]})
+                          "polarization": [float(v) for v in rand_dir(rng) * vscale(rng)]})
         orders = [list(range(ncomp))]
         if ncomp > 1:
             perm = list(range(ncomp))
@@ -1103,8 +1182,8 @@ def probe_receive(ctx):
             want, tol = np.zeros(n), 1e-300
             for c in cs:
                 vals = np.asarray(c["values"])
-                fx, hmax = oracle_filter(times, vals, H, fr)
-                d, pg, dd, pp = expected_gains(ant, p, direction, c["polarization"])
+                fx, hmax = component_response(times, vals, c["function"], H, fr)
+                d, pg, dd, pp = expected_gains(oracle_axes(ant, p), p, direction, c["polarization"])
                 k = eff / (af if c["value_type"] == 2 else 1.0)
                 want += fx * d * pg * k
                 sc = max(float(np.max(np.abs(fx))), float(np.max(np.abs(vals))))
@@ -1117,6 +1196,53 @@ def probe_receive(ctx):
                          "%s.receive stored a signal that is not the sum of its %d components' responses (first component: %s; max error %.3g > %.3g; type %s)" % (
                              cls, len(cs), fk, err, tol, out.value_type), rep)
             results.append(got)
+            if all(c["component_kind"] == "function" for c in cs):
+                # the stored sum of function signals on ANOTHER grid (extended on both sides, same dt): every component is
+                # its own function with its own filters, re-evaluated there
+                dt_ = times[1] - times[0]
+                na, nb = rng.choice([1, 3, 5]), rng.choice([0, 2, 4])
+                new_times = np.concatenate((times[0] - dt_ * np.arange(na, 0, -1), times, times[-1] + dt_ * np.arange(1, nb + 1)))
+                want2, tol2 = np.zeros(len(new_times)), 1e-300
+                for c in cs:
+                    v2 = pulse_fn(c["function"])(new_times)
+                    fx2, hmax2 = component_response(new_times, v2, c["function"], H, fr)
+                    d, pg, dd, pp = expected_gains(oracle_axes(ant, p), p, direction, c["polarization"])
+                    k = eff / (af if c["value_type"] == 2 else 1.0)
+                    want2 += fx2 * d * pg * k
+                    sc2 = max(float(np.max(np.abs(fx2))), float(np.max(np.abs(v2))))
+                    tol2 += filter_tol(v2, hmax2, d * pg * k) + (dd * abs(pg) + abs(d) * pp + 64 * EPS * abs(d * pg)) * abs(k) * sc2 + 1e-9 * float(np.max(np.abs(fx2 * d * pg * k)))
+                with np.errstate(all="ignore"):
+                    got2 = np.asarray(out.with_times(new_times).values, float)
+                    same_grid = np.asarray(out.with_times(times).values, float)
+                stats["regridded"] = stats.get("regridded", 0) + 1
+                err2 = float(np.max(np.abs(got2 - want2))) if len(got2) == len(want2) else float("inf")
+                if not (err2 <= tol2 and float(np.max(np.abs(same_grid - got))) <= 64 * EPS * (float(np.max(np.abs(got))) + 1e-300)):
+                    ctx.fail("receive-regrid:%s:%s" % (cls, fk),
+                             "%s: the stored sum of %d function-signal components, evaluated on an extended time grid, is not the sum of the components' responses there (max error %.3g > %.3g)" % (
+                                 cls, len(cs), err2, tol2), dict(rep, new_times=[float(t) for t in new_times]))
+                # the caller adds the components first (they carry different filter histories), then one apply_response
+                if len(cs) >= 2 and len({c["value_type"] for c in cs}) == 1:
+                    pol_c = cs[0]["polarization"]
+                    total = None
+                    for c in cs:
+                        sg = make_component(c["component_kind"], times, np.asarray(c["values"]), c["value_type"], c["function"])
+                        total = sg if total is None else total + sg
+                    with np.errstate(all="ignore"):
+                        r_sum = np.asarray(obj.apply_response(total, direction=direction, polarization=pol_c, force_real=fr).values, float)
+                    want3, tol3 = np.zeros(n), 1e-300
+                    for c in cs:
+                        vals = np.asarray(c["values"])
+                        fx, hmax = component_response(times, vals, c["function"], H, fr)
+                        d, pg, dd, pp = expected_gains(oracle_axes(ant, p), p, direction, pol_c)
+                        k = eff / (af if c["value_type"] == 2 else 1.0)
+                        want3 += fx * d * pg * k
+                        tol3 += filter_tol(vals, hmax, d * pg * k) + (dd * abs(pg) + abs(d) * pp + 64 * EPS * abs(d * pg)) * abs(k) * max(float(np.max(np.abs(fx))), float(np.max(np.abs(vals)))) + 1e-9 * float(np.max(np.abs(fx * d * pg * k)))
+                    stats["caller_sums"] = stats.get("caller_sums", 0) + 1
+                    err3 = float(np.max(np.abs(r_sum - want3)))
+                    if not err3 <= tol3:
+                        ctx.fail("response-of-sum:%s:%s" % (cls, fk),
+                                 "%s.apply_response(s1 + s2 + ...) of function signals with different filter histories is not the sum of their responses (max error %.3g > %.3g)" % (cls, err3, tol3),
+                                 dict(rep, summed_by_caller=True))
         if len(results) == 2:
             sc = float(np.max(np.abs(results[0]))) + 1e-300
             if not float(np.max(np.abs(results[0] - results[1]))) <= 64 * EPS * sc * len(comps) + 1e-300:
@@ -1143,8 +1269,8 @@ def probe_orientation(ctx):
         z, x = rand_frame(rng)
         ov_ = overlaps[it % len(overlaps)] * rng.choice([1.0, -1.0])
         eps_ = ov_ / math.sqrt(max(1 - ov_ * ov_, 1e-300))               # (x + eps z).z / |x + eps z| = ov_
-        xr = (x + eps_ * z) * rng.choice([1.0, 3.0])
-        zr = z * rng.choice([1.0, 0.5])
+        xr = (x + eps_ * z) * vscale(rng)
+        zr = z * vscale(rng)
         zn, xn = zr / np.linalg.norm(zr), xr / np.linalg.norm(xr)
         dot = abs(float(np.dot(zn, xn)))
         if abs(dot - 1e-8) < 1e-12:
@@ -1241,7 +1367,7 @@ def probe_shared_signal(ctx):
             via = rng.random() < 0.5
             op = rng.choice(["apply_response", "receive"])
             direction = rand_unit(rng)
-            pol = rand_unit(rng) * rng.choice([1.0, 2.0])
+            pol = rand_dir(rng) * vscale(rng)
             fr = rng.random() < 0.5
             uses.append({"antenna": ai, "op": op, "through_system": via, "direction": [float(v) for v in direction],
                          "polarization": [float(v) for v in pol], "force_real": fr})
@@ -1266,7 +1392,7 @@ def probe_shared_signal(ctx):
                 ctx.fail("shared-receive-count:%s" % p["cls"], "receive did not store exactly one signal", rep)
                 break
             fx, hmax = oracle_filter(times, known, response_H(p), fr)
-            d, pg, dd, pp = expected_gains(a_, p, direction, pol)
+            d, pg, dd, pp = expected_gains(oracle_axes(a_, p), p, direction, pol)
             af, eff = antenna_factor_expected(p)
             k = eff / (af if vt == 2 else 1.0)
             want = fx * d * pg * k
@@ -1410,8 +1536,8 @@ def replay(ctx, obj):
         if all(c["value_type"] in (1, 2) for c in cs):
             want = np.zeros(len(times))
             for c in cs:
-                fx, _ = oracle_filter(times, np.asarray(c["values"]), H, obj.get("force_real", False))
-                d, pg, _, _ = expected_gains(ant, p, obj.get("direction"), c["polarization"])
+                fx, _ = component_response(times, np.asarray(c["values"]), c.get("function"), H, obj.get("force_real", False))
+                d, pg, _, _ = expected_gains(oracle_axes(ant, p), p, obj.get("direction"), c["polarization"])
                 want += fx * d * pg * eff / (af if c["value_type"] == 2 else 1.0)
             print("expected stored signal (sum of the components' responses):", want[:6])
             if len(ant.signals) > before:
